@@ -1,7 +1,8 @@
 #!/venv/bin/python
-"""Apply a confirmed seeded change to /repo, run the given checks (quick tier by default), undo it.
-usage: run_seed.py C01-1 [C01 C11 ...] [--tier thorough]   -> prints which checks caught it."""
-import json, os, subprocess, sys
+"""Run checks against a confirmed seeded change WITHOUT touching /repo: a scratch worktree of /repo's
+HEAD gets the patch and the checks run with VERIF_REPO pointing at it (evidence goes to a scratch dir).
+usage: run_seed.py C01-1 [C01 C11 ...] [--tier thorough]"""
+import json, os, shutil, subprocess, sys, tempfile
 
 seed = sys.argv[1]
 args = sys.argv[2:]
@@ -12,22 +13,27 @@ if "--tier" in args:
     del args[i:i + 2]
 checks = args or [seed.split("-")[0]]
 d = "/verif/seeded/%s" % seed
-assert subprocess.run("git -C /repo status --porcelain --untracked-files=no", shell=True, stdout=subprocess.PIPE).stdout.strip() == b"", "/repo dirty"
-ap = subprocess.run("git -C /repo apply %s/patch.diff" % d, shell=True)
+wt = tempfile.mkdtemp(prefix="seedrun-%s-" % seed)
+os.rmdir(wt)
+subprocess.run("git -C /repo worktree add --detach %s HEAD -q" % wt, shell=True, check=True)
 res = {}
 try:
+    ap = subprocess.run("git -C %s apply %s/patch.diff" % (wt, d), shell=True)
+    if ap.returncode != 0:
+        ap = subprocess.run("git -C %s apply --3way %s/patch.diff" % (wt, d), shell=True)
     if ap.returncode != 0:
         print("PATCH DOES NOT APPLY", seed)
         sys.exit(2)
+    env = dict(os.environ, VERIF_REPO=wt, VERIF_EVIDENCE_DIR=os.path.join(wt, "_evidence"))
     for c in checks:
         p = subprocess.run("./check %s --tier %s" % (c, tier), shell=True, cwd="/verif", stdout=subprocess.PIPE,
-                           stderr=subprocess.STDOUT, universal_newlines=True)
+                           stderr=subprocess.STDOUT, universal_newlines=True, env=env)
         viol = [l for l in p.stdout.splitlines() if l.startswith("VIOLATION")]
         res[c] = {"rc": p.returncode, "violations": len(viol)}
         print(seed, c, "rc=%d" % p.returncode, "violations=%d" % len(viol))
         for l in p.stdout.splitlines():
-            if l.startswith("VIOLATION") or l.startswith("  ") or "MACHINERY" in l:
-                print("   ", l[:300])
+            if l.startswith("VIOLATION") or l.startswith("  ") or "MACHINERY" in l or "Traceback" in l:
+                print("   ", l[:260])
 finally:
-    subprocess.run("git -C /repo checkout -- .", shell=True)
-print(json.dumps({seed: res}))
+    subprocess.run("git -C /repo worktree remove --force %s" % wt, shell=True)
+print("RESULT " + json.dumps({seed: res}))
